@@ -71,6 +71,7 @@ def Emb : Spec.Expr → Node → Prop
   | .the .special k [], n => ∃ p, n = .leaf .propName (.s (Spec.nameOrUnknown Spec.tblSpecial k)) p
   | .the t k [e], n => ∃ p q cls tb w nm, theTbl t = some (cls, tb, w) ∧ idxName e = some nm ∧
       n = .propAcc p (.leaf cls nm q) (Spec.nameOrUnknown tb k)
+  | .oprop v o, n => ∃ p x, n = .propAcc p x v ∧ Emb o x
   | _, _ => False
 /-- argument lists, in source order (the model stores them in pop order = reversed) -/
 def EmbL : List Spec.Expr → List Node → Prop
@@ -102,6 +103,7 @@ def EmbH (hs : List Spec.Name) : Spec.Expr → Node → Prop
   | .the .special k [], n => ∃ p, n = .leaf .propName (.s (Spec.nameOrUnknown Spec.tblSpecial k)) p
   | .the t k [e], n => ∃ p q cls tb w nm, theTbl t = some (cls, tb, w) ∧ idxName e = some nm ∧
       n = .propAcc p (.leaf cls nm q) (Spec.nameOrUnknown tb k)
+  | .oprop v o, n => ∃ p x, n = .propAcc p x v ∧ EmbH hs o x
   | _, _ => False
 def EmbLH (hs : List Spec.Name) : List Spec.Expr → List Node → Prop
   | [], ns => ns = []
@@ -122,6 +124,7 @@ theorem emb_symName' (e : Spec.Expr) (n : Node) (h : Emb e n) (hs : ∀ v, e ≠
   | list as => obtain ⟨p, p', ops, rfl, _⟩ := h; rfl
   | key v => obtain ⟨p, rfl⟩ := h; rfl
   | movie v => rcases h with ⟨p, rfl⟩ | ⟨p, q, o, rfl, _⟩ <;> rfl
+  | oprop v o => obtain ⟨p, x, rfl, _⟩ := h; rfl
   | the t k as =>
     cases as with
     | cons y ys =>
@@ -142,7 +145,29 @@ def EmbLv : Spec.Expr → Node → Prop
   | .var .param v, n => ∃ p, n = .leaf .paramName (.s v) p
   | .var .glob v, n => ∃ p, n = .leaf .globalVar (.s v) p
   | .var .prop v, n => ∃ p q, n = .propAcc p (.leaf .node (.s (S "me")) q) v
+  | .the t k as, n => Emb (.the t k as) n      -- `set the <p> [of sprite n] = v`: the node `the <p> …` reads
+  | .oprop v o, n => Emb (.oprop v o) n
   | _, _ => False
+
+theorem emb_the_name (t : Spec.Tbl) (k : Nat) (as : List Spec.Expr) (n : Node) (h : Emb (.the t k as) n) : ∃ nm, n.name = .ok nm := by
+  cases as with
+  | nil =>
+    cases t with
+    | sys => simp only [Emb] at h; obtain ⟨p, q, o, rfl, _⟩ := h; exact ⟨_, rfl⟩
+    | special => simp only [Emb] at h; obtain ⟨p, rfl⟩ := h; exact ⟨_, rfl⟩
+    | _ => exact absurd h (by simp [Emb])
+  | cons x xs =>
+    cases xs with
+    | nil => simp only [Emb] at h; obtain ⟨p, q, cls, tb, w, nm, _, _, rfl⟩ := h; exact ⟨_, rfl⟩
+    | cons y ys => cases t <;> exact absurd h (by simp [Emb])
+
+/-- every assignment target has a `.name` (no fragment hypothesis; follows every extension of `EmbLv`) -/
+theorem embLv_name (lv : Spec.Expr) (l : Node) (h : EmbLv lv l) : ∃ nm, l.name = .ok nm := by
+  cases lv with
+  | var k v => cases k <;> (simp only [EmbLv] at h; first | (obtain ⟨p, rfl⟩ := h; exact ⟨_, rfl⟩) | (obtain ⟨p, q, rfl⟩ := h; exact ⟨_, rfl⟩))
+  | the t k as => simp only [EmbLv] at h; exact emb_the_name t k as l h
+  | oprop v o => simp only [EmbLv, Emb] at h; obtain ⟨p, x, rfl, _⟩ := h; exact ⟨_, rfl⟩
+  | _ => simp [EmbLv] at h
 
 /-- statements: the model's `Statement` node -/
 def EmbS : Spec.Stmt → Node → Prop
@@ -193,6 +218,14 @@ def gvClash (f : Spec.Name) : List Spec.Expr → Bool
   | .sym _ :: _ => Lscr.listHas Drx.Gen.PropTables.listFunctions (Lscr.pyLower f)
   | _ => false
 
+/-- the object of `the <p> of <obj>`: `PropertyAccessorOperation.generate_lingo` drops an object whose TEXT starts with `_` or is
+    `tell_obj` (meant for the synthetic owners `_movie`, `_system`, `tell_obj`; finding: it also hits user variables of such
+    names) and prints an object `me` of class Node as a bare property -/
+def objOk : Spec.Expr → Bool
+  | .var _ v => !Lscr.startsWith v (S "_") && v != S "tell_obj" && v != S "me"
+  | .call f _ => !Lscr.startsWith f (S "_")
+  | _ => true
+
 mutual
 /-- expressions of the link theorems -/
 def FragE : Spec.Expr → Bool
@@ -211,6 +244,7 @@ def FragE : Spec.Expr → Bool
   | .the .sys k [] => Spec.tblSys.any (fun x => x.1 == k)
   | .the .special k [] => decide (k < 6)
   | .the t k [e] => (match theTbl t with | some (_, tb, _) => tb.any (fun x => x.1 == k) | none => false) && (idxName e).isSome && FragE e
+  | .oprop v o => idOk v && objOk o && FragE o
   | _ => false
 def FragL : List Spec.Expr → Bool
   | [] => true
@@ -220,6 +254,8 @@ end
 /-- assignment targets: the four variable kinds -/
 def FragLv : Spec.Expr → Bool
   | .var _ n => idOk n
+  | .the t k as => FragE (.the t k as)
+  | .oprop v o => FragE (.oprop v o)
   | _ => false
 
 /-- statements of the link theorems -/
@@ -306,6 +342,7 @@ def mE : Spec.Expr → Str
     (match theTbl t with
      | some (_, tb, w) => S "the " ++ Spec.nameOrUnknown tb k ++ S " of " ++ w.toList ++ S " " ++ mE e
      | none => [])
+  | .oprop v o => S "the " ++ v ++ S " of " ++ mE o
   | _ => []
 /-- `", ".join(...)` -/
 def mArgs : List Spec.Expr → Str
